@@ -25,8 +25,9 @@ import (
 
 // names gives hashes stable small names within one case.
 type names struct {
-	prop map[util.Uint256]int // PrepareRequest payload hash -> n  (printed pN)
-	blk  map[util.Uint256]int // block hash -> n                   (printed bN)
+	prop  map[util.Uint256]int // PrepareRequest payload hash -> n  (printed pN)
+	nprop int
+	blk   map[util.Uint256]int // block hash -> n                   (printed bN)
 }
 
 func newNames() *names {
@@ -35,10 +36,14 @@ func newNames() *names {
 
 func (n *names) p(h util.Uint256) string {
 	if _, ok := n.prop[h]; !ok {
-		n.prop[h] = len(n.prop) + 1
+		n.nprop++
+		n.prop[h] = n.nprop
 	}
 	return fmt.Sprintf("p%d", n.prop[h])
 }
+
+// pnum is p without the letter (state observations).
+func (n *names) pnum(h util.Uint256) string { return n.p(h)[1:] }
 
 func (n *names) b(h util.Uint256) string {
 	if _, ok := n.blk[h]; !ok {
@@ -56,6 +61,11 @@ type proposal struct {
 	hdr    *block.Header
 	txs    []util.Uint256
 	tstamp uint64
+	num    int
+	prev   util.Uint256
+	ver    uint32
+	sroot  util.Uint256
+	srOK   bool // the state root it carries is the sender's own root at h-1
 }
 
 type hvKey struct {
@@ -97,10 +107,30 @@ type decoder struct {
 	props map[hvKey][]*proposal
 	// a second, different PrepareRequest for one (height, view) is an oracle failure
 	doubleProposal []string
+	newProps       []*proposal // registered since the trace last reported proposals
+	sigCache       map[string]sigRes
+	genesis        util.Uint256
+	forging        bool // the payload being decoded was crafted by the harness
 }
 
 func newDecoder(cl *cluster) *decoder {
-	return &decoder{cl: cl, nm: newNames(), props: map[hvKey][]*proposal{}}
+	return &decoder{cl: cl, nm: newNames(), props: map[hvKey][]*proposal{}, sigCache: map[string]sigRes{},
+		genesis: cl.nodes[0].bc.GetHeaderHash(0)}
+}
+
+// propOfBlock names the proposal a block hash belongs to (0 = genesis, 999999 = unknown).
+func (d *decoder) propOfBlock(h util.Uint256) int {
+	if h == d.genesis {
+		return 0
+	}
+	for _, prs := range d.props {
+		for _, pr := range prs {
+			if pr.hdr != nil && pr.hdr.Hash() == h {
+				return pr.num
+			}
+		}
+	}
+	return 999999
 }
 
 // header rebuilds the block header a validator derives from a PrepareRequest (consensus.go
@@ -195,7 +225,7 @@ func (d *decoder) decode(e *npayload.Extensible, sender *node) (*msg, error) {
 	head := fmt.Sprintf("%d %d %d", m.from, m.h, m.v)
 	switch p.Type() {
 	case dbft.PrepareRequestType:
-		m.desc = "PR " + head + " " + d.request(p, e.Data, sender)
+		m.desc = "PR " + head + " " + d.request(p, e, sender)
 	case dbft.PrepareResponseType:
 		m.desc = "PS " + head + " " + d.nm.p(p.GetPrepareResponse().PreparationHash())
 	case dbft.CommitType:
@@ -203,7 +233,7 @@ func (d *decoder) decode(e *npayload.Extensible, sender *node) (*msg, error) {
 		m.desc = "CM " + head + " " + b
 	case dbft.ChangeViewType:
 		cv := p.GetChangeView()
-		m.desc = fmt.Sprintf("CV %s %d", head, cv.NewViewNumber())
+		m.desc = fmt.Sprintf("CV %s %d %d", head, cv.NewViewNumber(), byte(cv.Reason()))
 	case dbft.RecoveryRequestType:
 		m.desc = "RR " + head
 	case dbft.RecoveryMessageType:
@@ -216,7 +246,7 @@ func (d *decoder) decode(e *npayload.Extensible, sender *node) (*msg, error) {
 		}
 		// the same accessors the receiving dBFT uses (dbft.go onRecoveryMessage)
 		for _, cvp := range rm.GetChangeViews(p, pubs) {
-			parts = append(parts, fmt.Sprintf("CV %d %d %d %d", cvp.ValidatorIndex(), cvp.Height(), cvp.ViewNumber(), cvp.GetChangeView().NewViewNumber()))
+			parts = append(parts, fmt.Sprintf("CV %d %d %d %d %d", cvp.ValidatorIndex(), cvp.Height(), cvp.ViewNumber(), cvp.GetChangeView().NewViewNumber(), byte(cvp.GetChangeView().Reason())))
 		}
 		if req := rm.GetPrepareRequest(p, pubs, uint16(pi)); req != nil {
 			rp := req.(*consensus.Payload)
@@ -246,6 +276,8 @@ func (d *decoder) decode(e *npayload.Extensible, sender *node) (*msg, error) {
 		if len(parts) > 0 {
 			m.desc += " " + strings.Join(parts, " ")
 		}
+		// the compact wire content, for the machine model
+		m.desc += " # " + d.rawRecString(e.Data, m.h, rm)
 	default:
 		m.desc = fmt.Sprintf("?? %s type=%d", head, p.Type())
 	}
@@ -253,7 +285,8 @@ func (d *decoder) decode(e *npayload.Extensible, sender *node) (*msg, error) {
 }
 
 // request registers a PrepareRequest and returns "pN bM".
-func (d *decoder) request(p *consensus.Payload, data []byte, sender *node) string {
+func (d *decoder) request(p *consensus.Payload, e *npayload.Extensible, sender *node) string {
+	data := e.Data
 	req := p.GetPrepareRequest()
 	ph := p.Hash()
 	key := hvKey{p.Height(), p.ViewNumber()}
@@ -270,14 +303,27 @@ func (d *decoder) request(p *consensus.Payload, data []byte, sender *node) strin
 	var prev util.Uint256
 	if len(data) >= 7+4+32 {
 		copy(prev[:], data[11:43])
+		pr.ver = binary.LittleEndian.Uint32(data[7:11])
 	}
-	_ = binary.LittleEndian
+	pr.prev = prev
+	d.nm.p(ph)
+	pr.num = d.nm.prop[ph]
+	if d.cl.sr && len(data) >= 32 {
+		copy(pr.sroot[:], data[len(data)-32:])
+		if sender != nil && pr.h > 0 {
+			if sr, err := sender.bc.GetStateRoot(pr.h - 1); err == nil {
+				pr.srOK = sr.Root == pr.sroot
+			}
+		}
+	}
+	d.newProps = append(d.newProps, pr)
+	d.relabelled(e, pr.num)
 	if sender != nil {
 		if hdr, err := d.header(sender, pr.h, pr.v, prev, req.Timestamp()/1000000, req.Nonce(), req.TransactionHashes()); err == nil {
 			pr.hdr = hdr
 		}
 	}
-	if len(d.props[key]) > 0 {
+	if len(d.props[key]) > 0 && !d.forging {
 		d.doubleProposal = append(d.doubleProposal, fmt.Sprintf("height %d view %d: two different PrepareRequests (validators %d and %d)", pr.h, pr.v, d.props[key][0].from, pr.from))
 	}
 	d.props[key] = append(d.props[key], pr)
@@ -339,3 +385,68 @@ func prepIndices(data []byte, sr bool) []int {
 }
 
 var _ = keys.PublicKeys{}
+
+// rawRecString renders the compact content of a RecoveryMessage:
+// ncv (validator origView)* R<pN|-> H<pN|-> np idx* ncm (view validator bN)*
+func (d *decoder) rawRecString(data []byte, h uint32, rm dbft.RecoveryMessage[util.Uint256]) string {
+	rr := parseRec(data, d.cl.sr)
+	if rr == nil {
+		return "?"
+	}
+	var w []string
+	w = append(w, fmt.Sprint(len(rr.cvs)))
+	for _, c := range rr.cvs {
+		w = append(w, fmt.Sprint(c[0]), fmt.Sprint(c[1]))
+	}
+	req := "R-"
+	if rr.hasReq {
+		// the carried request, re-addressed to the primary of the message's (height, view) the way
+		// recovery_message.go GetPrepareRequest does it: its payload hash names the proposal
+		if hh := d.reqHashOf(data, rr); hh != nil {
+			req = "R" + d.nm.p(*hh)
+		} else {
+			req = "R?"
+		}
+	}
+	w = append(w, req)
+	if rr.ph != nil {
+		w = append(w, "H"+d.nm.p(*rr.ph))
+	} else {
+		w = append(w, "H-")
+	}
+	w = append(w, fmt.Sprint(len(rr.preps)))
+	for _, i := range rr.preps {
+		w = append(w, fmt.Sprint(i))
+	}
+	w = append(w, fmt.Sprint(len(rr.commits)))
+	for _, c := range rr.commits {
+		_, b := d.blockOfCommit(c.vi, h, byte(c.view), c.sig)
+		w = append(w, fmt.Sprint(c.view), fmt.Sprint(c.vi), b)
+	}
+	return strings.Join(w, " ")
+}
+
+// reqHashOf computes the payload hash of the request a recovery message carries, addressed to the
+// primary of the message's height and view.
+func (d *decoder) reqHashOf(data []byte, rr *rawRec) *util.Uint256 {
+	if len(data) < 7 || rr.reqRaw == nil {
+		return nil
+	}
+	h := binary.LittleEndian.Uint32(data[1:5])
+	v := data[6]
+	n := len(d.cl.pubs)
+	pi := (int(h) - int(v)) % n
+	if pi < 0 {
+		pi += n
+	}
+	body := []byte{0x20, data[1], data[2], data[3], data[4], byte(pi), v}
+	body = append(body, rr.reqRaw...)
+	x := &npayload.Extensible{
+		Category:      npayload.ConsensusCategory,
+		ValidBlockEnd: h,
+		Sender:        d.cl.pubs[pi].GetScriptHash(),
+		Data:          body,
+	}
+	hh := x.Hash()
+	return &hh
+}
